@@ -81,6 +81,48 @@ GenGrammar(s, cx0, depth) ==
                                               [cx0 EXCEPT !.self = i, !.n = n])]]
   IN NumberActions(Prune([rules |-> rules]))
 
+(* ---------- the "switch" shape: a choice of >= 3 alternatives that all consume ---------- *)
+FirstForm(s, cx) ==
+  LET k == Pick(s, 60, 18)
+      a == ConsAtom(H(s, 61), cx)
+      b == ConsAtom(H(s, 62), cx)
+      c == ConsAtom(H(s, 63), cx)
+  IN CASE k \in 0..4 -> a
+       [] k = 5 -> AltE(<<SeqE(<<a, b>>), c>>)
+       [] k = 6 -> AltE(<<a, SeqE(<<b, c>>)>>)
+       [] k = 7 -> SeqE(<<And(a), b>>)
+       [] k = 8 -> SeqE(<<Not(a), b>>)
+       [] k = 9 -> SeqE(<<Opt(a), b>>)
+       [] k = 10 -> SeqE(<<Star(a), b>>)
+       [] k = 11 -> Plus(a)
+       [] k = 12 -> Cap(a)
+       [] k = 13 -> Ref("B")
+       [] k = 14 -> Ref("C")
+       [] k = 15 -> SeqE(<<Opt(SeqE(<<a, b>>)), c>>)
+       [] k = 16 -> SeqE(<<Star(SeqE(<<a, Opt(b)>>)), c>>)
+       [] k = 17 -> AltE(<<a, b, c>>)
+SwitchAlt(s, cx) ==
+  LET f == FirstForm(s, cx)
+      k == Pick(s, 64, 6)
+  IN CASE k \in 0..1 -> f
+       [] k = 2 -> SeqE(<<f, ConsAtom(H(s, 65), cx)>>)
+       [] k = 3 -> SeqE(<<f, Opt(ConsAtom(H(s, 65), cx))>>)
+       [] k = 4 -> SeqE(<<f, Act(0)>>)
+       [] k = 5 -> SeqE(<<f, ConsAtom(H(s, 65), cx), ConsAtom(H(s, 66), cx)>>)
+GenSwitch(s, cx) ==
+  LET n == 3 + Pick(s, 70, 3)
+      alt == AltE([i \in 1..n |-> SwitchAlt(H(s, 71 + i), cx)])
+      k == Pick(s, 80, 6)
+      body == CASE k \in 0..1 -> alt
+                [] k = 2 -> SeqE(<<alt, Not(Dot)>>)
+                [] k = 3 -> Star(alt)
+                [] k = 4 -> SeqE(<<Plus(alt), Not(Dot)>>)
+                [] k = 5 -> SeqE(<<ConsAtom(H(s, 81), cx), alt>>)
+      rules == << [name |-> "A", body |-> body],
+                  [name |-> "B", body |-> SwitchAlt(H(s, 90), [cx EXCEPT !.n = 1])],
+                  [name |-> "C", body |-> AltE(<<SwitchAlt(H(s, 91), [cx EXCEPT !.n = 1]), SwitchAlt(H(s, 92), [cx EXCEPT !.n = 1])>>)] >>
+  IN NumberActions(Prune([rules |-> rules]))
+
 (* ---------- inputs ------------------------------------------------------- *)
 RECURSIVE AllStrings(_, _)
 AllStrings(alpha, n) ==
@@ -119,10 +161,22 @@ Fam ==
          [cx |-> [alpha |-> <<97, 98, 10, 233, 27721>>, acts |-> TRUE, caps |-> TRUE, preds |-> FALSE, sugar |-> FALSE, maxrules |-> 3, self |-> 1, n |-> 1],
           depth |-> 3, optsets |-> <<"">>, exhaust |-> 2, alphaIn |-> <<97, 98, 10, 233, 27721>>, extraAlpha |-> <<97, 98, 10, 233, 27721, 128512>>, nextra |-> 30,
           collect |-> [toks |-> TRUE, exec |-> TRUE, ast |-> TRUE, msg |-> TRUE], entries |-> FALSE, memoOff |-> FALSE, act |-> "full"]
+    [] FAMILY = "switch" -> \* C02 C08: choices of >= 3 consuming alternatives (the shape -switch rewrites)
+         [cx |-> [alpha |-> <<97, 98, 99, 100, 101, 102>>, acts |-> TRUE, caps |-> TRUE, preds |-> FALSE, sugar |-> TRUE, maxrules |-> 3, self |-> 1, n |-> 1],
+          depth |-> 0, optsets |-> Plain4, exhaust |-> 2, alphaIn |-> <<97, 98, 99, 100, 101, 102>>, extraAlpha |-> <<97, 98, 99, 100, 101, 102, 65, 122>>, nextra |-> 40,
+          collect |-> [toks |-> TRUE, exec |-> FALSE, ast |-> FALSE, msg |-> FALSE], entries |-> FALSE, memoOff |-> FALSE, act |-> "full"]
     [] FAMILY = "noast" ->  \* C07
          [cx |-> [alpha |-> ABC, acts |-> TRUE, caps |-> TRUE, preds |-> TRUE, sugar |-> FALSE, maxrules |-> 3, self |-> 1, n |-> 1],
           depth |-> 3, optsets |-> All8, exhaust |-> 3, alphaIn |-> ABC, extraAlpha |-> <<97, 98, 99, 100>>, nextra |-> 10,
-          collect |-> [toks |-> TRUE, exec |-> TRUE, ast |-> FALSE, msg |-> FALSE], entries |-> FALSE, memoOff |-> FALSE, act |-> "text"]
+          collect |-> [toks |-> TRUE, exec |-> FALSE, ast |-> FALSE, msg |-> FALSE], entries |-> FALSE, memoOff |-> FALSE, act |-> "text"]
+    [] FAMILY = "reuse" ->  \* C12: histories on one long-lived instance x Size x U
+         [cx |-> [alpha |-> ABC, acts |-> TRUE, caps |-> TRUE, preds |-> FALSE, sugar |-> FALSE, maxrules |-> 3, self |-> 1, n |-> 1],
+          depth |-> 3, optsets |-> <<"", "is", "n">>, exhaust |-> 2, alphaIn |-> ABC, extraAlpha |-> <<97, 98, 99, 100>>, nextra |-> 12,
+          collect |-> [toks |-> TRUE, exec |-> TRUE, ast |-> TRUE, msg |-> TRUE], entries |-> FALSE, memoOff |-> FALSE, act |-> "text"]
+    [] FAMILY = "bytes" ->  \* C13: arbitrary Go strings as Buffer
+         [cx |-> [alpha |-> <<97, 0, 233, 65533, 128512, 1114111>>, acts |-> FALSE, caps |-> TRUE, preds |-> FALSE, sugar |-> TRUE, maxrules |-> 3, self |-> 1, n |-> 1],
+          depth |-> 3, optsets |-> <<"", "is">>, exhaust |-> 0, alphaIn |-> <<97>>, extraAlpha |-> <<97>>, nextra |-> 0,
+          collect |-> [toks |-> TRUE, exec |-> FALSE, ast |-> TRUE, msg |-> TRUE], entries |-> FALSE, memoOff |-> FALSE, act |-> "full"]
 
 Style(G) == [DefaultStyle EXCEPT !.act = IF Fam.act = "full" THEN "full" ELSE IF HasCapture(G) THEN "text" ELSE "none"]
 
@@ -131,18 +185,38 @@ Inputs(s) ==
       extra == [j \in 1..Fam.nextra |-> RndString(H(s, 300 + j), Fam.extraAlpha, Fam.exhaust + 1 + Pick(s, 400 + j, 3))]
   IN [k \in 1..(Len(base) + Len(extra)) |-> [r |-> IF k <= Len(base) THEN base[k] ELSE extra[k - Len(base)]]]
 
+\* byte-level inputs: concatenations of chunks (valid and invalid UTF-8)
+Chunks == << <<97>>, <<0>>, <<255>>, <<195, 169>>, <<195>>, <<240, 159, 152, 128>>, <<244, 143, 191, 191>>, <<237, 160, 128>>,
+             <<239, 191, 189>>, <<128>>, <<240, 159>>, <<10>>, <<244, 144, 128, 128>> >>
+RECURSIVE ByteString(_, _)
+ByteString(s, n) == IF n = 0 THEN <<>> ELSE Chunks[1 + Pick(s, 600 + n, Len(Chunks))] \o ByteString(s, n - 1)
+ByteInputs(s) == [k \in 1..40 |-> [b |-> ByteString(H(s, 700 + k), IF k = 1 THEN 0 ELSE 1 + Pick(s, 800 + k, 6))]]
+
+Hists(s, ninputs) ==
+  IF FAMILY # "reuse" THEN <<>>
+  ELSE [h \in 1..8 |-> LET len == 2 + Pick(s, 900 + h, 4) IN
+         [j \in 1..len |-> IF h <= 2 /\ j > 1 /\ j % 2 = 0 THEN 1 + Pick(s, 910 + h * 7 + j - 1, ninputs)   \* the same input twice in a row
+                            ELSE 1 + Pick(s, 910 + h * 7 + j, ninputs)]]
+
 Plan(G) ==
+  IF FAMILY = "reuse" THEN
+    <<PlanEntry("", TRUE, 0, "uint32", FALSE), PlanEntry("", TRUE, 1, "uint32", FALSE), PlanEntry("", TRUE, 4096, "uint32", FALSE),
+      PlanEntry("", TRUE, 0, "uint16", FALSE), PlanEntry("", TRUE, 0, "uint64", FALSE), PlanEntry("", TRUE, 0, "uint", FALSE),
+      PlanEntry("", FALSE, 1, "uint16", FALSE)>>
+  ELSE
   <<PlanEntry("", TRUE, 0, "uint32", FALSE)>> \o
   (IF Fam.memoOff THEN <<PlanEntry("", FALSE, 0, "uint32", FALSE)>> ELSE <<>>) \o
   (IF Fam.entries THEN [k \in 1..(Len(G.rules) - 1) |-> PlanEntry(G.rules[k + 1].name, TRUE, 0, "uint32", TRUE)] ELSE <<>>)
 
-Candidate(n) == GenGrammar(H(H(SEED, n), n \div 1499), Fam.cx, Fam.depth)
+Candidate(n) == IF FAMILY = "switch" THEN GenSwitch(H(H(SEED, n), n \div 1499), Fam.cx)
+                ELSE GenGrammar(H(H(SEED, n), n \div 1499), Fam.cx, Fam.depth)
 
 Scenario(n) ==
   LET G == Candidate(n) IN
   [id |-> n, family |-> FAMILY, seed |-> SEED, grammar |-> G, text |-> Render(G, Style(G)),
-   optsets |-> Fam.optsets, inputs |-> Inputs(H(SEED, n + 17)), plan |-> Plan(G), hist |-> <<>>,
-   collect |-> Fam.collect, allu |-> FALSE, norun |-> FALSE]
+   optsets |-> Fam.optsets, inputs |-> IF FAMILY = "bytes" THEN ByteInputs(H(SEED, n + 17)) ELSE Inputs(H(SEED, n + 17)),
+   plan |-> Plan(G), hist |-> Hists(H(SEED, n + 29), Len(Inputs(H(SEED, n + 17)))),
+   collect |-> Fam.collect, allu |-> FAMILY = "reuse", norun |-> FALSE, actstyle |-> Style(G).act]
 
 IsWF(n) == WFB(BodyMap(Core(Candidate(n))))
 
